@@ -108,12 +108,15 @@ New(how, d, b) ==
 
 CloneTo(k) == CASE k = "TArc" -> "Arc" [] k = "TOff" -> "Off" [] OTHER -> k
 
+\* what a clone-style operation does when it finds the count word at rc
+CloneOutcome(rc) == IF rc > MaxRefcount THEN "abort" ELSE "ok"
+
 \* Arc::clone: fetch_add; abort if the value read exceeds MAX_REFCOUNT
 DoClone(opname, s, d, newk) ==
     LET b == hnd[s].b IN
     /\ res' = [NoRes EXCEPT !.op = opname, !.s = s]
     /\ blk' = RcInc(blk, b)
-    /\ IF blk[b].rc > MaxRefcount
+    /\ IF CloneOutcome(blk[b].rc) = "abort"
        THEN aborted' = TRUE /\ hnd' = hnd
        ELSE aborted' = aborted /\ hnd' = Mint(hnd, d, newk, b)
     /\ UNCHANGED frames
